@@ -120,7 +120,16 @@ RAW = [
 
 
 def units(tier):
-    return [Unit('C14_lifecycle', [create_inst(tier), destroy_inst(tier)] + guard_insts(tier))]
+    # the status guards of register_callback / unregister_callback (contracts of C13: registration only inside the CREATED window,
+    # unregistration outside it - NOT_CREATED, INITIALIZING after a failed create, CLEANING_UP - is ignored and never reaches the backend)
+    from . import C13
+    ginsts = []
+    for it in (C13.register_inst(tier), C13.unregister_cb_inst(tier)):
+        it.name = it.name.replace('c13_', 'c14_guard_')
+        it.prop = PROP
+        it.replay = None
+        ginsts.append(it)
+    return [Unit('C14_lifecycle', [create_inst(tier), destroy_inst(tier)] + guard_insts(tier) + ginsts)]
 
 
 ASSUMPTIONS = [
